@@ -463,7 +463,7 @@ func genC07() *rapid.Generator[C07Case] {
 		c := C07Case{Listen: rapid.SampledFrom([]string{"127.0.0.1:0", "127.0.0.1", "[::1]:0", "0.0.0.0:0", "[::]:0"}).Draw(t, "listen")}
 		n := rapid.IntRange(0, 8).Draw(t, "nreq")
 		addr := func(label string) string {
-			return rapid.SampledFrom([]string{"c2.example", "c2.example:8443", "10.1.2.3", "10.1.2.3:443", "[2001:db8::1]:4444", "MiXed.Example", "a-b.c_d.example:1", "localhost:9"}).Draw(t, label)
+			return rapid.SampledFrom([]string{"c2.example", "c2.example:8443", "10.1.2.3", "10.1.2.3:443", "[2001:db8::1]:4444", "MiXed.Example", "a-b.c_d.example:1", "localhost:9", "shell.example.com:8443", "host7:4444", "https.example", "t.example:80", "ptp.example", "s3.example", "p:1"}).Draw(t, label)
 		}
 		for i := 0; i < n; i++ {
 			var r C07Req
